@@ -29,6 +29,7 @@ func init() {
 			{"C19-R4", "selectors precede the namespace policy for every fallback", c19r4},
 			{"C19-R5", "stripping does not remove what re-insertion reads", c19r5},
 			{"C19-R6", "recorded user overrides are consulted for every template container", c19r6},
+			{"C19-R7", "container lists are never sorted unstably", c19r7},
 		},
 	})
 }
@@ -523,4 +524,73 @@ func c19r6(c *Ctx) {
 	}
 	c.Check("loops consulting the recorded overrides found", fn.Pos(), n >= 2, "expected the container and the init-container loop")
 	c.Floor(3)
+}
+
+// C19-R7: user containers keep their relative order. The injector moves its own containers by name
+// (modifyContainers: remove + re-insert, which leaves everything else in place); it never hands a container list to a
+// sorting routine that is not stable - all user containers compare equal under any ranking of the injected ones, and
+// Go's sort.Slice / slices.SortFunc (pdqsort) permute equal elements once the list is longer than 12. Counted: every
+// call of a sorting routine in the package (positive control: at least one, on something else); decided: none of them
+// takes a []Container unless it is a *Stable variant.
+func c19r7(c *Ctx) {
+	p := c.P
+	nSort, nCont := 0, 0
+	isContainerSlice := func(t types.Type) bool {
+		sl, ok := t.Underlying().(*types.Slice)
+		if !ok {
+			return false
+		}
+		e := sl.Elem()
+		if pt, ok := e.(*types.Pointer); ok {
+			e = pt.Elem()
+		}
+		n, ok := e.(*types.Named)
+		return ok && (n.Obj().Name() == "Container" || n.Obj().Name() == "EphemeralContainer") && n.Obj().Pkg() != nil && strings.HasSuffix(n.Obj().Pkg().Path(), "k8s.io/api/core/v1")
+	}
+	for _, fn := range p.AllFuncs {
+		if funcPkgPath(fn) != istioMod+"/"+pkgInject || strings.HasSuffix(p.Fset.Position(fn.Pos()).Filename, "_test.go") || isWrapperFn(fn) {
+			continue
+		}
+		eachInstr(fn, func(ins ssa.Instruction) {
+			call, ok := ins.(*ssa.Call)
+			if !ok {
+				return
+			}
+			sc := call.Call.StaticCallee()
+			if sc == nil || sc.Pkg == nil && sc.Origin() == nil {
+				return
+			}
+			o := sc
+			if sc.Origin() != nil {
+				o = sc.Origin()
+			}
+			if o.Pkg == nil {
+				return
+			}
+			pp := o.Pkg.Pkg.Path()
+			if pp != "sort" && pp != "slices" && pp != istioMod+"/pkg/slices" {
+				return
+			}
+			name := o.Name()
+			if !(strings.HasPrefix(name, "Sort") || strings.HasPrefix(name, "Slice") || name == "Stable" || name == "Strings" || name == "Ints") {
+				return
+			}
+			nSort++
+			onContainers := false
+			for _, a := range call.Call.Args {
+				if isContainerSlice(unwrap(a).Type()) {
+					onContainers = true
+				}
+			}
+			if !onContainers {
+				return
+			}
+			nCont++
+			c.Check("a container list is only ever sorted stably: "+stableFnName(fn), call.Pos(), strings.Contains(name, "Stable"),
+				"the injector sorts a container list with "+pp+"."+name+", which is not stable: user containers all compare equal under a ranking of the injected ones, and an unstable sort permutes them (Go's pdqsort does as soon as the list has more than 12 elements) - the pod's own init containers run in a different order than the user wrote")
+		})
+	}
+	c.Check("sorting calls in the injector are recognised (positive control)", token.NoPos, nSort >= 1, "no call of a sorting routine found in pkg/kube/inject; the matcher no longer recognises them")
+	c.Infof("sorting calls: %d, on container lists: %d", nSort, nCont)
+	c.Floor(1)
 }
